@@ -126,6 +126,21 @@ CHECKS = {
          "ModelDescriptor table/doc-string round trip. Oracle: the abstract document that was rendered (order, keywords as written, names, tags with lines, step types with And/But/* inheritance, texts, cells, 1-based lines).",
          "Trusts the renderer vlib/gherkin_render.py; the keyword table is read from etc/gherkin/gherkin-languages.json so that a truncated i18n.py is visible; CRLF and lower-case keywords are not varied.",
          "DESIGN.md section 5, C04"),
+
+ "C17": ("exploration",
+         "exhaustive enumeration of two-file programs over a scenario-kind alphabet with a bound on non-passing scenarios, each executed as the history run -> rerun file -> selection -> second run on real files",
+         "Ten feature shapes (plain scenarios, outlines with one/two examples blocks, rules, backgrounds) in 11 (thorough 17) ordered two-file pairs; every assignment of {pass, fail, error, undefined, pending, before/after-scenario hook error, "
+         "de-selected} with <=2 (thorough <=4) non-passing scenarios; stale rerun file present/absent. The real RerunFormatter (built through make_formatters) must list exactly file:line of the failed/error-class scenarios in run order, "
+         "remove the stale file when there are none; feeding '@rerun.txt' back through collect_feature_locations/parse_features must select exactly those scenarios and a second real run must execute exactly them.",
+         "Trusts the renderer's line map (vlib/prog.py) and the slot-kind -> status premise (itself checked); the rerun file is always rerun.txt in the working directory.",
+         "DESIGN.md section 5, C17"),
+ "C18": ("exploration",
+         "exhaustive enumeration of outcome sequences x all 8 capture-switch combinations x logging variants with marker-printing steps and hooks, observed through sentinel real streams, formatter callbacks and the root logger; child processes in thorough",
+         "1-2 scenarios x all outcome sequences up to length 2 (thorough 3) over {pass, execute_steps, fail, error, KeyboardInterrupt, before_step hook error, after_step hook error, failing sub-step}; every step and step hook writes unique markers "
+         "to stdout, stderr and a logger; all 8 capture switch combinations x logging variants. Checked: no captured marker reaches the sentinel streams; a failing step's report contains exactly its scenario's markers up to that step; passing "
+         "scenarios' output is not shown; sys.stdout/sys.stderr are the original objects at every match/result callback, in after_scenario and after the run for every outcome; root logger handlers/level restored per scenario; pass-through order with capture off.",
+         "In-process sentinel streams stand for the real streams (12 child-process runs in thorough confirm the correspondence); --logging-filter sub-logger semantics are accepted either way (docs contradict themselves).",
+         "DESIGN.md section 5, C18"),
 }
 PENDING_REASON = "check not built yet in this round (planned, see DESIGN.md section 5); nothing is claimed for it so far"
 
